@@ -6,6 +6,7 @@ import (
 
 	"github.com/tobgu/qframe"
 	"github.com/tobgu/qframe/config/eval"
+	"github.com/tobgu/qframe/config/groupby"
 	"github.com/tobgu/qframe/types"
 
 	"verif/harness/core"
@@ -20,6 +21,8 @@ type evalCase struct {
 	Expr  model.Expr `json:"expr"`
 	Style string     `json:"style"` // expr | raw
 	User  bool       `json:"user_ctx"`
+	// Battery: the returned frame also goes through the latent-state battery (battery.go)
+	Battery bool `json:"battery,omitempty"`
 }
 
 func c07Base() model.Frame {
@@ -67,7 +70,9 @@ func c07Env_() *c07Env {
 			// 70 rows (the base rows in a mixed order, repeated): beyond any blocked or unrolled loop
 			model.Build(base.Rows(c07BigRows())), model.BuildShape(base.Rows(c07BigRows()), model.ShapeSparsePerm),
 			// a parent whose last step added a column (Copy): two Evals on this one object (see runEvalCase)
-			model.Build(base).Copy("cp", "i").Copy("cq", "f")} {
+			model.Build(base).Copy("cp", "i").Copy("cq", "f"),
+			// the result of an aggregation whose result column got its name through As (every column a key: one row per row)
+			model.Build(base).GroupBy(groupby.Columns("i", "i2", "f", "b", "s", "e"), groupby.Null(true)).Aggregate(qframe.Aggregation{Fn: "count", Column: "i", As: "ev0"}).Sort(qframe.Order{Column: "i"})} {
 			o := model.Observe(q)
 			o.AdoptMeta(base)
 			e.real = append(e.real, q)
@@ -78,11 +83,13 @@ func c07Env_() *c07Env {
 	return c07env
 }
 
+func c07NShapes() int { return len(c07Env_().real) }
+
 func c07ShapeName(s int) string {
 	if s < model.NShapes {
 		return model.ShapeNames[s]
 	}
-	return []string{"zero-rows", "one-row", "one-row-of-a-sorted-frame", "first-column-dropped", "after-an-eval", "70-rows", "70-rows-sparseperm", "after-two-copies"}[s-model.NShapes]
+	return []string{"zero-rows", "one-row", "one-row-of-a-sorted-frame", "first-column-dropped", "after-an-eval", "70-rows", "70-rows-sparseperm", "after-two-copies", "aggregated-with-As"}[s-model.NShapes]
 }
 
 func c07BigRows() []int {
@@ -124,7 +131,8 @@ func runEvalCase(c evalCase) *core.Failure {
 			_ = qf.Eval(c.Dst, expr, eval.EvalContext(env.user))
 		}
 	}
-	got := model.Observe(qf.Eval(c.Dst, expr, fns...))
+	evalRes := qf.Eval(c.Dst, expr, fns...)
+	got := model.Observe(evalRes)
 	if earlierObs != "" {
 		if now := model.Observe(earlier).String() + fmt.Sprint(earlier.ColumnNames()); now != earlierObs {
 			return core.Failf("Eval(%q, %s) on a parent changed the result of an EARLIER Eval on the same parent:\n before: %s\n  after: %s", c.Dst, c.Expr, earlierObs, now)
@@ -134,6 +142,19 @@ func runEvalCase(c evalCase) *core.Failure {
 	if d := model.Diff(want, got); d != "" {
 		return core.Failf("Eval(%q, %s) style=%s user_ctx=%v on %s frame: %s\n input: %s\n  want: %s\n   got: %s",
 			c.Dst, c.Expr, c.Style, c.User, c07ShapeName(c.Shape), d, in, want, got)
+	}
+	if c.Battery && !got.Err {
+		what := fmt.Sprintf("the frame returned by Eval(%q, %s) on the %s frame", c.Dst, c.Expr, c07ShapeName(c.Shape))
+		decl := declOf(in)
+		if c.Dst == "e" {
+			decl = nil
+		}
+		if f := latentBattery(evalRes, decl, what); f != nil {
+			return f
+		}
+		if f := bookkeepingBattery(evalRes, what); f != nil {
+			return f
+		}
 	}
 	after := model.Observe(qf)
 	after.AdoptMeta(in)
@@ -314,7 +335,7 @@ func c07Run(ctx *core.Ctx) {
 						if !ctx.Mine() {
 							continue
 						}
-						shape := int(ctx.Index() % int64(model.NShapes+8))
+						shape := int(ctx.Index() % int64(c07NShapes()))
 						exec(evalCase{Shape: shape, Dst: dst, Expr: e, Style: style, User: user})
 					}
 				}
@@ -335,6 +356,17 @@ func c07Run(ctx *core.Ctx) {
 		model.Call("+", model.Call("fill", model.ColE("e")), model.StrE("!")), model.Call("+", model.ColE("e"), model.StrE("")), model.Call("+", model.StrE(""), model.ColE("e")),
 		model.ColE("colcol-temp-0"), model.Call("+", model.ColE("colcol-temp-0"), model.ColE("i")), model.Call("+", model.ColE("i"), model.Call("abs", model.ColE("colcol-temp-0"))))
 	runAll(wellTyped, "typed-depth2", ctx.Quick() == false)
+	// latent state: the result of every well-typed tree (into a new and into an existing column) through the battery
+	for ei, e := range wellTyped {
+		if e.Depth() > 1 && ei%97 != 0 {
+			continue // every tree of depth <= 1, every 97th of the deeper ones
+		}
+		for di, dst := range []string{"new", "i", "ev0"} {
+			if ctx.Mine() {
+				exec(evalCase{Shape: (ei + di) % c07NShapes(), Dst: dst, Expr: e, Style: "expr", User: ei%2 == 0, Battery: true})
+			}
+		}
+	}
 	// string constants that look like something else (a variable, a placeholder, a column or function name, a
 	// number, a keyword): a constant denotes itself in every row
 	var literal []model.Expr
@@ -354,7 +386,7 @@ func c07Run(ctx *core.Ctx) {
 			model.Call("+", model.Call("abs", model.ColE(name)), model.IntE(1))} {
 			for _, style := range []string{"expr", "raw", "val"} {
 				for _, user := range []bool{true, false} {
-					for shape := 0; shape < model.NShapes+8; shape++ {
+					for shape := 0; shape < c07NShapes(); shape++ {
 						if ctx.Mine() {
 							exec(evalCase{Shape: shape, Dst: name, Expr: e, Style: style, User: user})
 						}
